@@ -15,7 +15,8 @@
 (*                                                                         *)
 (* Numbers: float32 values are int32 views of their IEEE bit pattern       *)
 (* (equality = bit equality; FKey turns them into an order-isomorphic      *)
-(* integer for min/max); doubles of node TRS are three bit chunks;         *)
+(* integer for min/max; NaN patterns are never ordered: IsNaN);            *)
+(* doubles of node TRS are three bit chunks;                               *)
 (* material numbers are in 1/1000; colours on the source side are the      *)
 (* 16-bit channels of color.RGBA().                                        *)
 (* int32 budget: byte offsets <= 2^24 * 16 bytes; colour band arithmetic   *)
@@ -41,6 +42,17 @@ IsFloat(a) == a.comp = 5126
 \* order-isomorphic integer key of a float32 bit pattern (-0.0 and +0.0 coincide)
 FKey(b) == IF b >= 0 THEN b ELSE -(b + 2147483647) - 1
 Key(a, x) == IF IsFloat(a) THEN FKey(x) ELSE x
+
+\* classes of float32 bit patterns (int32 views): 0x7F800000 = +Inf, 0xFF800000 = -Inf,
+\* anything beyond them (all-ones exponent, non-zero mantissa) is a NaN
+PosInf == 2139095040
+NegInf == -8388608
+IsNaN(b) == b > PosInf \/ (b < 0 /\ b > NegInf)
+NonFinite(b) == b >= PosInf \/ (b < 0 /\ b >= NegInf)
+\* equality of float32 images: the same bits, or both NaN (sign and payload of a NaN are
+\* not data: the statement speaks of "the float32 image" of a value, and NaN is one value)
+FEq(x, y) == x = y \/ (IsNaN(x) /\ IsNaN(y))
+RowEq(isF, r, q) == IF isF THEN Len(r) = Len(q) /\ \A c \in DOMAIN r : FEq(r[c], q[c]) ELSE r = q
 
 (* ======================= container and buffers ========================= *)
 GlbOK(c) ==
@@ -119,25 +131,62 @@ MisalignCause(o, i) ==
 
 (* ======================= accessor contents ============================= *)
 Comps(a) == 1..NumComp(a.type)
-DecMin(a, c) == IF a.full THEN SetMin({Key(a, a.vals[i][c]) : i \in DOMAIN a.vals}) ELSE Key(a, a.sum.min[c])
-DecMax(a, c) == IF a.full THEN SetMax({Key(a, a.vals[i][c]) : i \in DOMAIN a.vals}) ELSE Key(a, a.sum.max[c])
+\* NaN.  glTF 2.0 (3.6.2.2) says accessor data MUST NOT contain NaN or +-Inf, and JSON cannot
+\* write them, so no document can DECLARE a NaN bound.  The writer nevertheless accepts such
+\* attributes; the statement does not exclude them.  What is demanded of a produced file:
+\* every structural predicate as for any other data; the stored bits are the float32 image
+\* (FEq); and the declared bounds are, PER COMPONENT (3.6.2.5: "per-component minimum and
+\* maximum values"), the bounds of the stored values of that component that are numbers.  A
+\* component in which every stored value is NaN has no bounds: nothing is demanded of what
+\* is declared for it.
+NaNAt(a, x) == IsFloat(a) /\ IsNaN(x)
+Good(a, c) == {i \in DOMAIN a.vals : ~NaNAt(a, a.vals[i][c])}                       \* a.full only
+Clean(a) == {i \in DOMAIN a.vals : \A c \in Comps(a) : ~NaNAt(a, a.vals[i][c])}    \* a.full only
+HasVal(a, c) == IF a.full THEN Good(a, c) # {} ELSE a.sum.nan[c] < a.count
+HasClean(a) == IF a.full THEN Clean(a) # {} ELSE a.sum.enan < a.count
+HasNaN(a) == IF a.full THEN Clean(a) # DOMAIN a.vals ELSE a.sum.enan > 0
+\* only meaningful when HasVal(a, c)
+DecMin(a, c) == IF a.full THEN SetMin({Key(a, a.vals[i][c]) : i \in Good(a, c)}) ELSE Key(a, a.sum.min[c])
+DecMax(a, c) == IF a.full THEN SetMax({Key(a, a.vals[i][c]) : i \in Good(a, c)}) ELSE Key(a, a.sum.max[c])
 
 \* declared bounds equal the bounds of the STORED elements.  glTF 2.0 (3.6.2.5):
 \* bounds of float accessors are single precision values; the projection
 \* rounds the JSON number to float32 before taking its bits.
+MinMaxShape(a) ==
+    /\ a.hasMin /\ a.hasMax /\ a.dec
+    /\ Len(a.min) = NumComp(a.type) /\ Len(a.max) = NumComp(a.type)
 MinMaxOK(a) ==
     (a.hasMin \/ a.hasMax) =>
-        /\ a.hasMin /\ a.hasMax /\ a.dec
-        /\ Len(a.min) = NumComp(a.type) /\ Len(a.max) = NumComp(a.type)
+        /\ MinMaxShape(a)
         /\ IsFloat(a) \/ a.mmExact
-        /\ \A c \in Comps(a) : Key(a, a.min[c]) = DecMin(a, c) /\ Key(a, a.max[c]) = DecMax(a, c)
+        /\ \A c \in Comps(a) :
+              /\ ~NaNAt(a, a.min[c]) /\ ~NaNAt(a, a.max[c])
+              /\ HasVal(a, c) => (Key(a, a.min[c]) = DecMin(a, c) /\ Key(a, a.max[c]) = DecMax(a, c))
+
+\* Explanation of wrong bounds used in signatures (as MisalignCause): the declared bounds are
+\* those of the ELEMENTS that have no NaN component -- an element with a NaN in one component
+\* was left out of the bounds of its other components too (with no such element at all the
+\* bounds are what float32 makes of +-MaxFloat64, the values the search started from).
+EMin(a, c) == IF ~HasClean(a) THEN FKey(PosInf)
+              ELSE IF a.full THEN SetMin({Key(a, a.vals[i][c]) : i \in Clean(a)}) ELSE Key(a, a.sum.emin[c])
+EMax(a, c) == IF ~HasClean(a) THEN FKey(NegInf)
+              ELSE IF a.full THEN SetMax({Key(a, a.vals[i][c]) : i \in Clean(a)}) ELSE Key(a, a.sum.emax[c])
+MinMaxCause(a) ==
+    IF /\ IsFloat(a) /\ MinMaxShape(a) /\ HasNaN(a)
+       /\ \A c \in Comps(a) : Key(a, a.min[c]) = EMin(a, c) /\ Key(a, a.max[c]) = EMax(a, c)
+    THEN "nan-element-skipped" ELSE "unexplained"
 
 \* harness self-consistency: the summaries it logs for big accessors are the
 \* ones TLC computes itself whenever the elements are logged too
 SumConsistent(a) ==
-    (a.dec /\ a.full) => \A c \in Comps(a) :
-        /\ Key(a, a.sum.min[c]) = SetMin({Key(a, a.vals[i][c]) : i \in DOMAIN a.vals})
-        /\ Key(a, a.sum.max[c]) = SetMax({Key(a, a.vals[i][c]) : i \in DOMAIN a.vals})
+    (a.dec /\ a.full) =>
+        /\ a.sum.enan = Cardinality(DOMAIN a.vals \ Clean(a))
+        /\ \A c \in Comps(a) :
+              /\ a.sum.nan[c] = Cardinality(DOMAIN a.vals \ Good(a, c))
+              /\ Good(a, c) # {} => /\ Key(a, a.sum.min[c]) = SetMin({Key(a, a.vals[i][c]) : i \in Good(a, c)})
+                                    /\ Key(a, a.sum.max[c]) = SetMax({Key(a, a.vals[i][c]) : i \in Good(a, c)})
+              /\ Clean(a) # {} => /\ Key(a, a.sum.emin[c]) = SetMin({Key(a, a.vals[i][c]) : i \in Clean(a)})
+                                  /\ Key(a, a.sum.emax[c]) = SetMax({Key(a, a.vals[i][c]) : i \in Clean(a)})
 
 AllPrims(o) == UNION {Ran(m.prims) : m \in Ran(o.meshes)}
 VCount(o, p) == IF p.attrs = <<>> THEN 0 ELSE At0(o.accs, p.attrs[1].acc).count
@@ -223,10 +272,20 @@ AttrDataOK(o, p, sm, sa, at) ==
         /\ IF sm.big
            THEN at.cfp # <<>> /\ at.cfp = (IF isF THEN sa.cfp ELSE sa.icfp)
            ELSE /\ acc.full /\ (p.idx = -1 \/ At0(o.accs, p.idx).full)
-                /\ \A j \in 1..sm.ni : acc.vals[DIdx(o, p, j) + 1] = img[sm.idx[j] + 1]
+                /\ \A j \in 1..sm.ni : RowEq(isF, acc.vals[DIdx(o, p, j) + 1], img[sm.idx[j] + 1])
 
 AllAttrDataOK(o, p, sm) ==
     \A sa \in Ran(sm.attrs) : \A at \in Ran(p.attrs) : SemMatches(at.sem, sa.name) => AttrDataOK(o, p, sm, sa, at)
+
+\* does the scene hand the writer a value that is NaN or +-Inf as a float32?  (glTF has no
+\* valid document for such a scene: refusing it with an error is an allowed outcome)
+MeshNonFinite(sm) == \E sa \in Ran(sm.attrs) : sa.nnf > 0
+InstNonFinite(m) == \E x \in Ran(m.inst) : \E v \in Ran(x.t) \cup Ran(x.r) \cup Ran(x.s) : NonFinite(v)
+SrcNonFinite(src) == \E m \in Ran(Live(src)) : MeshNonFinite(src.meshes[m.mesh]) \/ InstNonFinite(m)
+\* harness self-consistency: the count it logs is the one TLC finds in the logged images
+NnfConsistent(sm) ==
+    ~sm.big => \A sa \in Ran(sm.attrs) :
+        sa.nnf = Cardinality({<<i, c>> \in (DOMAIN sa.data) \X (1..sa.ar) : NonFinite(sa.data[i][c])})
 
 F32Zero == 0
 F32One == 1065353216
@@ -234,7 +293,7 @@ InstAttrOK(o, n, m, sem, type, def, get(_)) ==
     IF \E at \in Ran(n.inst) : at.sem = sem
     THEN LET acc == At0(o.accs, (CHOOSE at \in Ran(n.inst) : at.sem = sem).acc) IN
          /\ IsFloat(acc) /\ acc.type = type /\ acc.dec /\ acc.full /\ acc.count = Len(m.inst)
-         /\ \A i \in DOMAIN m.inst : acc.vals[i] = get(m.inst[i])
+         /\ \A i \in DOMAIN m.inst : RowEq(TRUE, acc.vals[i], get(m.inst[i]))
     ELSE \A i \in DOMAIN m.inst : get(m.inst[i]) = def
 InstT(x) == x.t
 InstR(x) == x.r
